@@ -52,6 +52,16 @@ check("C14", "fault_enumeration",
       "A failing writer keeps failing; documents whose minification fails by itself may return their own error instead of the writer's.",
       "exhaustive fault-position enumeration + schedule exploration of the wrappers", "DESIGN.md#c14", engine="vsched")
 
+check("C19", "exploration",
+      "Every tree of <=3 (thorough <=4) files from a pool of 15 (eight names in src/, src/sub/ and a hidden directory, minifiable and failing contents) x 34 invocation shapes (file to stdout/file/dir/itself, several files, bundles, directories with and without trailing slash, -r/-a/-s, in place, match/include/exclude glob and regex, type/mime/ext overrides, stdin, -q/-v, rejected combinations) plus special trees (user's own .bak, existing destinations, symlinks) is run on the real cmd/minify binary in a fresh scratch directory. A reference model written from the README gives the destination paths; expected bytes come from library calls; every other path must be byte-identical before/after; exit status and leftover backups are checked.",
+      "The model is the trusted reading of cmd/minify/README.md; --watch, ownership and timestamps are not covered.",
+      "bounded exhaustive enumeration of trees x invocations on the real binary vs reference model", "DESIGN.md#c19", engine="cli")
+
+check("C20", "fault_enumeration",
+      "The real cmd/minify binary runs under a ptrace supervisor. For each of ~30 histories (in-place for every media type and sizes 0..64KiB+1, failing minification, symlink/hard-link aliases, separate output, mirror, in-place directory, bundles onto an input, sync, preserve variants) a trace run records the N file-mutating system calls; then for every k in 1..N a fresh tree is built and the process is SIGKILLed right before operation k executes, and every write is additionally torn at 1, n/2, n-1 bytes (thorough: every operation also fails with ENOSPC/EIO/EACCES). Each disk state left behind must keep, for every input file, the complete original in place or in <name>.bak, or the complete new output; files only read must be unchanged.",
+      "Process kill only (no power loss); task order must be sequential (single task or -v) for the operation index to be meaningful; the expected new content is the content after an undisturbed run.",
+      "exhaustive crash-point and torn-write enumeration at system-call boundaries of the real binary (ptrace fault injector)", "DESIGN.md#c20", engine="ptsup")
+
 ALL = ["C%02d" % i for i in range(1, 21)]
 NOT_YET = {p: "check not built yet in this revision (planned, see DESIGN.md section 4); not claimed until its command exists" for p in ALL if p not in CHECKS}
 
@@ -68,6 +78,8 @@ manifest = {
     "engines": [
         {"name": "enum", "path": "/verif/internal/core", "serves_properties": sorted(k for k in CHECKS if CHECKS[k]["engine"] == "enum"), "kind_free_text": "bounded exhaustive case enumerator (mixed radix / grammar families, sharded over all cores) with independent oracles"},
         {"name": "vsched", "path": "/verif/internal/vsync", "serves_properties": ["C12", "C13", "C14"], "kind_free_text": "cooperative deterministic scheduler with shims for sync.RWMutex/Mutex/WaitGroup/Once, io.Pipe and go; stateless DFS over schedules with prefix replay, iterative preemption bounding and state-key pruning; applied to the real minify.go through a generated go build -overlay"},
+        {"name": "ptsup", "path": "/verif/internal/ptsup", "serves_properties": ["C20"], "kind_free_text": "ptrace supervisor: traces file-mutating system calls of the real binary, kills before the k-th, tears the k-th write, or fails it with an errno"},
+        {"name": "cli", "path": "/verif/internal/props/c19", "serves_properties": ["C19"], "kind_free_text": "tree x invocation enumerator on the real binary with a reference model of destinations"},
         {"name": "bfs", "path": "/verif/internal/props/c15", "serves_properties": ["C15"], "kind_free_text": "explicit-state breadth-first search over operation histories; successor = replay on a fresh real object + one operation; reference-model canonical state for deduplication"},
     ],
     "checks": [CHECKS[k] for k in sorted(CHECKS)],
